@@ -868,6 +868,9 @@ class Message:
                 next_payload_type, critical, length = unpack_from('>BBH', data, offset)
             except struct_error as ex:
                 raise InvalidSyntax(ex)
+            # the length includes the generic payload header, so anything smaller is malformed
+            if length < 4:
+                raise InvalidSyntax(f'Invalid payload length {length}')
             critical = bool(critical >> 7)
             start = offset + 4
             end = offset + length
